@@ -143,7 +143,7 @@ def to_line(p):
         if k == "sleep":
             return ["assign", "_sl", s[1]]
         if k == "all":
-            return ["assign", "__all__", ["lit", 0]]     # the model (like pyscript) does not interpret __all__
+            return ["setall", s[1]]                      # __all__ = [...]: interpreted by the model's star import
         if k in ("getctx", "listctx"):
             return ["assign", s[1], ["lit", 0]]          # probe names are dunders: outside the compared tables
         return s
